@@ -231,8 +231,6 @@ func (idx *BlockerIndexer) matchRange(
 	}
 
 	tmpHeights := make(map[string][]byte)
-	lowerBound := qr.LowerBoundValue()
-	upperBound := qr.UpperBoundValue()
 
 	it, err := dbm.IteratePrefix(idx.store, startKey)
 	if err != nil {
@@ -257,22 +255,16 @@ LOOP:
 			continue
 		}
 
-		if _, ok := qr.AnyBound().(int64); ok {
+		switch qr.AnyBound().(type) {
+		case int64, float64:
 			v, err := strconv.ParseInt(eventValue, 10, 64)
 			if err != nil {
 				continue LOOP
 			}
 
-			include := true
-			if lowerBound != nil && v < lowerBound.(int64) {
-				include = false
-			}
-
-			if upperBound != nil && v > upperBound.(int64) {
-				include = false
-			}
-
-			if include {
+			// compare against the bounds themselves (integer or floating
+			// point, inclusive or exclusive)
+			if include, ok := qr.ContainsInt64(v); ok && include {
 				tmpHeights[string(it.Value())] = it.Value()
 			}
 		}
